@@ -91,7 +91,11 @@ theorem addCall_effect {s s' : State} {t : Tid} {k : TaskId} {a : Nat} (h : step
   unfold step at h
   simp only [] at h
   split at h <;> simp at h
+  · obtain ⟨h2, h3⟩ := h; subst h3; simp [State.goto, h2]
   all_goals (obtain ⟨⟨_, h2⟩, h3⟩ := h; subst h3; simp [State.goto, h2])
+
+theorem inTask_isW (p : Pc) (h : inTask p = true) : isW p = true := by cases p <;> simp_all
+theorem inTask_not_gone (p : Pc) (h : inTask p = true) : gone p = false := by cases p <;> simp_all
 
 theorem nodup_map_of_inj {α β : Type} (f : α → β) : ∀ (l : List α), l.Nodup → (∀ a ∈ l, ∀ b ∈ l, f a = f b → a = b) → (l.map f).Nodup
   | [], _, _ => by simp
